@@ -1,6 +1,15 @@
-//! Bounded stand-ins for code the deductive verifier cannot reach (iterator-adapter glue).
+//! Bounded stand-ins for code the deductive verifier cannot reach (iterator-adapter glue, the
+//! in-place loops under plan B) and witness search for failed Verus obligations.
 //! Everything here is labelled `bounded` in the evidence and never counted as an obligation.
+//! The reference model is a plain `Vec<usize>` of rows of the documented alphabet (laws::Oracle).
 use crate::json_str;
+use crate::laws::{comp_letter, ncbi_amino, Oracle};
+use crate::rng::Rng;
+use bio_seq::codec::{degenerate, masked, text};
+use bio_seq::prelude::*;
+use std::collections::HashMap;
+use std::hash::{Hash, Hasher};
+use std::panic::{catch_unwind, AssertUnwindSafe};
 
 pub struct Report {
     pub property: String,
@@ -19,18 +28,13 @@ impl Report {
     pub fn case(&mut self, sample: impl FnOnce() -> String) {
         self.cases += 1;
         self.distinct += 1;
-        if self.samples.len() < 5 {
+        if self.samples.len() < 6 && (self.cases % 97 == 1) {
             self.samples.push(sample());
         }
     }
-    pub fn fail(&mut self, what: &str, input: String) {
-        if self.failures.len() < 20 {
-            self.failures.push((what.to_string(), input));
-        }
-    }
     pub fn expect(&mut self, ok: bool, what: &str, input: impl FnOnce() -> String) {
-        if !ok {
-            self.fail(what, input());
+        if !ok && self.failures.len() < 25 && !self.failures.iter().any(|(w, _)| w == what) {
+            self.failures.push((what.to_string(), input()));
         }
     }
     pub fn to_json(&self) -> String {
@@ -44,8 +48,942 @@ impl Report {
     }
 }
 
-pub fn run(prop: &str, _tier: &str, _seed: u64) -> Report {
+// ------------------------------------------------------------------------------------------ model helpers
+/// sequence built with push (verified by Verus) from table rows
+fn build<C: Oracle>(rows: &[usize]) -> Seq<C> {
+    let mut s = Seq::<C>::new();
+    for &r in rows {
+        s.push(C::entry(r).sym);
+    }
+    s
+}
+fn text_of<C: Oracle>(rows: &[usize]) -> Vec<u8> {
+    rows.iter().map(|&r| C::entry(r).ch).collect()
+}
+fn rows_of<C: Oracle>(s: &SeqSlice<C>) -> Vec<usize> {
+    (0..s.len()).map(|i| {
+        let x = s.nth(i);
+        (0..C::len()).find(|&r| C::entry(r).sym == x).unwrap_or(usize::MAX)
+    }).collect()
+}
+fn rand_rows<C: Oracle>(rng: &mut Rng, n: usize) -> Vec<usize> {
+    (0..n).map(|_| rng.below(C::len())).collect()
+}
+/// a slice with the given content starting at symbol offset `off` inside a longer parent
+fn with_offset<C: Oracle, R>(rows: &[usize], off: usize, rng: &mut Rng, f: impl FnOnce(&SeqSlice<C>) -> R) -> R {
+    let mut all = rand_rows::<C>(rng, off);
+    all.extend_from_slice(rows);
+    let tail = rng.below(3);
+    all.extend(rand_rows::<C>(rng, tail));
+    let parent = build::<C>(&all);
+    f(&parent[off..off + rows.len()])
+}
+fn caught<R>(f: impl FnOnce() -> R) -> Option<R> {
+    catch_unwind(AssertUnwindSafe(f)).ok()
+}
+/// all strings over `alpha` of length <= n
+fn all_strings(alpha: &[u8], n: usize) -> Vec<Vec<u8>> {
+    let mut out = vec![vec![]];
+    let mut cur = vec![vec![]];
+    for _ in 0..n {
+        let mut next = vec![];
+        for s in &cur {
+            for &c in alpha {
+                let mut t: Vec<u8> = s.clone();
+                t.push(c);
+                next.push(t);
+            }
+        }
+        out.extend(next.iter().cloned());
+        cur = next;
+    }
+    out
+}
+fn show(b: &[u8]) -> String {
+    format!("{:?}", String::from_utf8_lossy(b)) + &format!(" bytes={:?}", b)
+}
+
+macro_rules! for_codecs {
+    ($f:ident, $($arg:expr),*) => {{
+        $f::<Dna>($($arg),*);
+        $f::<Iupac>($($arg),*);
+        $f::<Amino>($($arg),*);
+        $f::<text::Dna>($($arg),*);
+        $f::<masked::dna::Dna>($($arg),*);
+        $f::<masked::iupac::Iupac>($($arg),*);
+        $f::<degenerate::dna::Dna>($($arg),*);
+    }};
+}
+
+// ------------------------------------------------------------------------------------------ C01
+fn expected_parse<C: Oracle>(bytes: &[u8]) -> Result<Vec<usize>, u8> {
+    let mut rows = vec![];
+    for &b in bytes {
+        match C::expect_ascii(b) {
+            Some(r) => rows.push(r),
+            None => return Err(b),
+        }
+    }
+    Ok(rows)
+}
+fn check_parse<C: Oracle>(rep: &mut Report, got: Result<Seq<C>, ParseBioError>, bytes: &[u8], entry: &str) {
+    let exp = expected_parse::<C>(bytes);
+    match (exp, got) {
+        (Ok(rows), Ok(s)) => {
+            rep.expect(s.len() == rows.len() && rows_of::<C>(&s) == rows, "C01 parse yields one symbol per byte, in order", || format!("{} {} via {}", C::NAME, show(bytes), entry));
+            // display -> parse -> display
+            let d = s.to_string();
+            let canon: Vec<u8> = rows.iter().map(|&r| C::entry(r).ch).collect();
+            rep.expect(d.as_bytes() == &canon[..], "C01 display shows the symbols' characters", || format!("{} {} via {} displayed {:?}", C::NAME, show(bytes), entry, d));
+            rep.expect(String::from(&*s) == d && String::from(s.clone()) == d && format!("{}", &*s) == d, "C01 String::from / Display agree", || format!("{} {}", C::NAME, show(bytes)));
+            match Seq::<C>::try_from(d.as_str()) {
+                Ok(s2) => rep.expect(s2 == s && s2.to_string() == d, "C01 display -> parse -> display is the identity", || format!("{} {}", C::NAME, show(bytes))),
+                Err(_) => rep.expect(false, "C01 displayed text parses back", || format!("{} {}", C::NAME, show(bytes))),
+            }
+        }
+        (Err(b), Err(e)) => rep.expect(e == ParseBioError::UnrecognisedBase(b), "C01 parse error names the first bad byte", || format!("{} {} via {} got {:?}", C::NAME, show(bytes), entry, e)),
+        (Ok(_), Err(e)) => rep.expect(false, "C01 valid text is accepted", || format!("{} {} via {} got {:?}", C::NAME, show(bytes), entry, e)),
+        (Err(_), Ok(s)) => rep.expect(false, "C01 text with a bad byte is rejected", || format!("{} {} via {} got {}", C::NAME, show(bytes), entry, s)),
+    }
+}
+fn c01_codec<C: Oracle>(rep: &mut Report, thorough: bool, rng: &mut Rng) {
+    // alphabet: up to 3 valid characters (first, last, middle) + invalid incl. non-ASCII
+    let valid: Vec<u8> = (0..=255u8).filter(|&b| C::expect_ascii(b).is_some()).collect();
+    let invalid: Vec<u8> = [b'x', b'\n', 0x80, 0xff, b'J', 0].iter().copied().filter(|&b| C::expect_ascii(b).is_none()).take(3).collect();
+    let mut alpha = vec![valid[0], valid[valid.len() - 1], valid[valid.len() / 2]];
+    alpha.dedup();
+    alpha.extend(&invalid);
+    let mut inputs = all_strings(&alpha, if thorough { 4 } else { 3 });
+    for &n in &[31usize, 32, 33, 63, 64, 65, 127, 129] {
+        let mut v: Vec<u8> = (0..n).map(|_| valid[rng.below(valid.len())]).collect();
+        inputs.push(v.clone());
+        let k = rng.below(n);
+        v[k] = invalid[rng.below(invalid.len())];
+        let k2 = rng.below(n);
+        let mut v2 = v.clone();
+        v2[k2] = invalid[0];
+        inputs.push(v);
+        inputs.push(v2);
+    }
+    for bytes in &inputs {
+        rep.case(|| format!("{} {}", C::NAME, show(bytes)));
+        check_parse::<C>(rep, Seq::<C>::try_from(&bytes[..]), bytes, "TryFrom<&[u8]>");
+        check_parse::<C>(rep, Seq::<C>::try_from(bytes.clone()), bytes, "TryFrom<Vec<u8>>");
+        if let Ok(st) = std::str::from_utf8(bytes) {
+            check_parse::<C>(rep, Seq::<C>::try_from(st), bytes, "TryFrom<&str>");
+            check_parse::<C>(rep, Seq::<C>::try_from(st.to_string()), bytes, "TryFrom<String>");
+            check_parse::<C>(rep, Seq::<C>::try_from(&st.to_string()), bytes, "TryFrom<&String>");
+            check_parse::<C>(rep, Seq::<C>::from_str(st), bytes, "FromStr");
+            check_parse::<C>(rep, st.parse::<Seq<C>>(), bytes, "str::parse");
+        }
+        if let Ok(rows) = expected_parse::<C>(bytes) {
+            let syms: Vec<C> = rows.iter().map(|&r| C::entry(r).sym).collect();
+            let a: Seq<C> = syms.iter().copied().collect();
+            let mut b = Seq::<C>::new();
+            b.extend(syms.iter().copied());
+            let c: Seq<C> = Seq::from(&syms);
+            rep.expect(rows_of::<C>(&a) == rows && rows_of::<C>(&b) == rows && rows_of::<C>(&c) == rows, "C01 FromIterator / extend / From<&Vec> build by repeated push", || format!("{} {}", C::NAME, show(bytes)));
+        }
+    }
+}
+fn c01(tier: &str, seed: u64) -> Report {
+    let mut rep = Report::new("C01", "all byte strings of length <= 3 (thorough: 4) over {3 valid, 3 invalid incl. non-ASCII} + random strings of length 31,32,33,63,64,65,127,129 (valid / one bad byte / two bad bytes), 7 codecs, every parsing entry point");
+    rep.functions = vec!["TryFrom<Vec<u8>>::try_from", "TryFrom<&[u8]|&str|String|&String>", "FromStr", "FromIterator<A>", "Seq::extend", "From<&Vec<A>>", "String::from(&SeqSlice)", "Display for SeqSlice", "From<Seq> for String"];
+    let mut rng = Rng::new(seed);
+    let th = tier == "thorough";
+    for_codecs!(c01_codec, &mut rep, th, &mut rng);
+    rep
+}
+
+// ------------------------------------------------------------------------------------------ C02
+#[derive(Default)]
+pub struct RecHasher(pub Vec<u8>);
+impl Hasher for RecHasher {
+    fn finish(&self) -> u64 {
+        0
+    }
+    fn write(&mut self, bytes: &[u8]) {
+        self.0.push(0xAA);
+        self.0.extend_from_slice(bytes);
+    }
+}
+fn rec<T: Hash + ?Sized>(t: &T) -> Vec<u8> {
+    let mut h = RecHasher::default();
+    t.hash(&mut h);
+    h.0
+}
+fn c02_kmer<C: Oracle, const K: usize>(rep: &mut Report, rng: &mut Rng) {
+    for off in [0usize, 1, 3, 7] {
+        let rows = rand_rows::<C>(rng, K);
+        with_offset::<C, _>(&rows, off, &mut Rng::new(rng.next()), |sl| {
+            rep.case(|| format!("{} K={} off={} {}", C::NAME, K, off, sl));
+            let k: Kmer<C, K> = Kmer::try_from(sl).unwrap();
+            let owned: Seq<C> = sl.to_owned();
+            rep.expect(rec(&k) == rec(sl), "C02 a k-mer feeds the hasher the same data as the slice it was copied from", || format!("{} K={} off={} {}", C::NAME, K, off, sl));
+            rep.expect(rec(&owned) == rec(sl), "C02 an owned sequence feeds the hasher the same data as a slice with the same content", || format!("{} off={} {}", C::NAME, off, sl));
+            rep.expect(k == *sl && k == sl && k == owned, "C02 a k-mer equals the sequences with the same symbols", || format!("{} K={} {}", C::NAME, K, sl));
+            let txt = sl.to_string();
+            rep.expect(k == txt.as_str() && *sl == txt.as_str(), "C02 a sequence equals its own displayed text", || format!("{} {}", C::NAME, txt));
+            // differing in one symbol
+            if C::len() > 1 {
+                let mut r2 = rows.clone();
+                let p = K - 1;
+                r2[p] = (r2[p] + 1) % C::len();
+                let other = build::<C>(&r2);
+                let otxt = other.to_string();
+                if otxt != txt {
+                    rep.expect(!(k == other) && !(k == otxt.as_str()) && !(*sl == otxt.as_str()) && !(*sl == *other), "C02 sequences differing in one symbol are unequal (also to displayed text)", || format!("{} {} vs {}", C::NAME, txt, otxt));
+                }
+            }
+            // map lookup through Borrow
+            let mut m: HashMap<Seq<C>, usize> = HashMap::new();
+            m.insert(owned.clone(), 7);
+            rep.expect(m.get(sl) == Some(&7), "C02 an owned key is found by a borrowed slice with the same content", || format!("{} off={} {}", C::NAME, off, sl));
+        });
+    }
+}
+fn c02_text<C: Oracle>(rep: &mut Report, rng: &mut Rng) {
+    // SeqSlice == &str glue: lengths 0..5, prefixes/suffixes, invalid characters
+    for n in 0..5usize {
+        for _ in 0..6 {
+            let rows = rand_rows::<C>(rng, n);
+            let off = rng.below(9);
+            with_offset::<C, _>(&rows, off, &mut Rng::new(rng.next()), |sl| {
+                rep.case(|| format!("{} {}", C::NAME, sl));
+                let t = String::from_utf8(text_of::<C>(&rows)).unwrap();
+                // canonical display of the rows
+                let disp: String = rows.iter().map(|&r| C::entry(C::expect_ascii(C::entry(r).ch).unwrap()).ch as char).collect();
+                rep.expect(*sl == disp.as_str(), "C02 slice == its displayed text", || format!("{} {} vs {:?}", C::NAME, sl, disp));
+                let longer = format!("{}{}", t, C::entry(0).ch as char);
+                rep.expect(!(*sl == longer.as_str()), "C02 slice != longer text with the same prefix", || format!("{} {}", C::NAME, sl));
+                if n > 0 {
+                    rep.expect(!(*sl == &t[..n - 1]), "C02 slice != its proper prefix as text", || format!("{} {}", C::NAME, sl));
+                    let bad = format!("{}{}", &t[..n - 1], '\u{7f}');
+                    rep.expect(!(*sl == bad.as_str()), "C02 slice != text with an invalid character", || format!("{} {}", C::NAME, sl));
+                }
+            });
+        }
+    }
+}
+fn c02(_tier: &str, seed: u64) -> Report {
+    let mut rep = Report::new("C02", "k-mers K in {1,2,5,8,16,31,32} (Dna), {1,3,16} (Iupac), {1,4,10} (Amino), {1,8} (text) at symbol offsets 0,1,3,7; text comparison for lengths 0..4 at random offsets; recording hasher");
+    rep.functions = vec!["PartialEq<&str> for SeqSlice (zip loop)", "PartialEq<&str> for Kmer (to_string)", "HashMap<Seq,_>::get(&SeqSlice) via Borrow", "Hash for Kmer/Seq/SeqSlice (cross-check of the Verus contract with a recording hasher)"];
+    let mut rng = Rng::new(seed);
+    c02_kmer::<Dna, 1>(&mut rep, &mut rng);
+    c02_kmer::<Dna, 2>(&mut rep, &mut rng);
+    c02_kmer::<Dna, 5>(&mut rep, &mut rng);
+    c02_kmer::<Dna, 8>(&mut rep, &mut rng);
+    c02_kmer::<Dna, 16>(&mut rep, &mut rng);
+    c02_kmer::<Dna, 31>(&mut rep, &mut rng);
+    c02_kmer::<Dna, 32>(&mut rep, &mut rng);
+    c02_kmer::<Iupac, 1>(&mut rep, &mut rng);
+    c02_kmer::<Iupac, 3>(&mut rep, &mut rng);
+    c02_kmer::<Iupac, 16>(&mut rep, &mut rng);
+    c02_kmer::<Amino, 1>(&mut rep, &mut rng);
+    c02_kmer::<Amino, 4>(&mut rep, &mut rng);
+    c02_kmer::<Amino, 10>(&mut rep, &mut rng);
+    c02_kmer::<text::Dna, 1>(&mut rep, &mut rng);
+    c02_kmer::<text::Dna, 8>(&mut rep, &mut rng);
+    for_codecs!(c02_text, &mut rep, &mut rng);
+    rep
+}
+
+// ------------------------------------------------------------------------------------------ C03
+fn c03_codec<C: Oracle>(rep: &mut Report, rng: &mut Rng) {
+    for n in [0usize, 1, 2, 5, 13, 33, 70] {
+        let rows = rand_rows::<C>(rng, n);
+        let off = rng.below(17);
+        with_offset::<C, _>(&rows, off, &mut Rng::new(rng.next()), |sl| {
+            rep.expect(sl.len() == n && sl.is_empty() == (n == 0), "C03 len / is_empty", || format!("{} n={}", C::NAME, n));
+            for a in 0..=n.min(6) {
+                for b in a..=n {
+                    rep.case(|| format!("{} n={} off={} {}..{}", C::NAME, n, off, a, b));
+                    let want = &rows[a..b];
+                    rep.expect(rows_of::<C>(&sl[a..b]) == want, "C03 a..b selects symbols a..b", || format!("{} n={} {}..{}", C::NAME, n, a, b));
+                    if b > a {
+                        rep.expect(rows_of::<C>(&sl[a..=b - 1]) == want, "C03 a..=b-1 selects symbols a..b", || format!("{} n={} {}..={}", C::NAME, n, a, b - 1));
+                    }
+                    if a == 0 {
+                        rep.expect(rows_of::<C>(&sl[..b]) == want, "C03 ..b selects the first b symbols", || format!("{} n={} ..{}", C::NAME, n, b));
+                        if b > 0 {
+                            rep.expect(rows_of::<C>(&sl[..=b - 1]) == want, "C03 ..=b-1 selects the first b symbols", || format!("{} n={}", C::NAME, n));
+                        }
+                    }
+                    if b == n {
+                        rep.expect(rows_of::<C>(&sl[a..]) == want, "C03 a.. selects the tail", || format!("{} n={} {}..", C::NAME, n, a));
+                    }
+                    // nested re-slicing
+                    if b - a >= 2 {
+                        let inner = &sl[a..b][1..b - a - 1 + 1];
+                        rep.expect(rows_of::<C>(inner) == &rows[a + 1..b], "C03 nested re-slicing", || format!("{} n={}", C::NAME, n));
+                    }
+                }
+            }
+            rep.expect(rows_of::<C>(&sl[..]) == rows, "C03 .. selects everything", || format!("{} n={}", C::NAME, n));
+            // out of bounds: never a symbol
+            rep.expect(sl.get(n).is_none() && sl.get(n + 1).is_none() && sl.get(usize::MAX).is_none() && sl.get(1usize << 63).is_none(), "C03 get beyond the end returns nothing", || format!("{} n={}", C::NAME, n));
+            for i in [n, n + 1, usize::MAX, 1usize << 63, (1usize << 63) + 1, (usize::MAX / (C::BITS as usize).max(1)).wrapping_add(1), (1usize << 62), (1usize << 61) + 1] {
+                if i < n {
+                    continue;
+                }
+                rep.expect(caught(|| sl.nth(i)).is_none(), "C03 nth beyond the end panics", || format!("{} n={} nth({})", C::NAME, n, i));
+                rep.expect(caught(|| sl[i].len()).is_none(), "C03 seq[i] beyond the end panics", || format!("{} n={} [{}]", C::NAME, n, i));
+                rep.expect(caught(|| sl[0..i.max(n + 1)].len()).is_none(), "C03 a..b beyond the end panics", || format!("{} n={} 0..{}", C::NAME, n, i.max(n + 1)));
+                rep.expect(caught(|| sl[..=i].len()).is_none(), "C03 ..=b beyond the end panics", || format!("{} n={} ..={}", C::NAME, n, i));
+                rep.expect(caught(|| sl[0..=i].len()).is_none(), "C03 a..=b beyond the end panics", || format!("{} n={} 0..={}", C::NAME, n, i));
+                if i > n {
+                    rep.expect(caught(|| sl[i..].len()).is_none(), "C03 a.. beyond the end panics", || format!("{} n={} {}..", C::NAME, n, i));
+                    rep.expect(caught(|| sl[..i].len()).is_none(), "C03 ..b beyond the end panics", || format!("{} n={} ..{}", C::NAME, n, i));
+                }
+            }
+            if n >= 2 {
+                rep.expect(caught(|| sl[2..1].len()).is_none(), "C03 reversed range panics", || format!("{} n={}", C::NAME, n));
+            }
+        });
+    }
+}
+fn c03(_tier: &str, seed: u64) -> Report {
+    let mut rep = Report::new("C03", "lengths 0,1,2,5,13,33,70 at random symbol offsets 0..16, all (a,b) with a <= 6, out-of-range positions n, n+1, 2^61+1, 2^62, 2^63, 2^63+1, usize::MAX; 7 codecs; run in both build profiles");
+    rep.functions = vec!["Index impls / nth / get on the real crate (witness search for the refuse-mode obligations, incl. wrap-around positions)"];
+    let mut rng = Rng::new(seed);
+    for_codecs!(c03_codec, &mut rep, &mut rng);
+    rep
+}
+
+// ------------------------------------------------------------------------------------------ C04
+fn layout_value<C: Oracle>(rows: &[usize]) -> u128 {
+    let mut v: u128 = 0;
+    for (i, &r) in rows.iter().enumerate() {
+        v |= (C::entry(r).code as u128) << (i * C::BITS as usize);
+    }
+    v
+}
+fn image_rows<C: Oracle>(img: &[usize], n: usize) -> Vec<u8> {
+    (0..n).map(|i| {
+        let mut c = 0u8;
+        for j in 0..C::BITS as usize {
+            let k = i * C::BITS as usize + j;
+            if (img[k / 64] >> (k % 64)) & 1 == 1 {
+                c |= 1 << j;
+            }
+        }
+        c
+    }).collect()
+}
+fn c04_codec<C: Oracle>(rep: &mut Report, rng: &mut Rng) {
+    let w = C::BITS as usize;
+    let maxn = 64 / w;
+    for n in [1usize, 2, maxn.saturating_sub(1).max(1), maxn, maxn + 1, maxn + 3] {
+        for off in [0usize, 1, 5, 11] {
+            let rows = rand_rows::<C>(rng, n);
+            with_offset::<C, _>(&rows, off, &mut Rng::new(rng.next()), |sl| {
+                rep.case(|| format!("{} n={} off={}", C::NAME, n, off));
+                let got = usize::try_from(sl);
+                if n * w <= 64 {
+                    rep.expect(got == Ok(layout_value::<C>(&rows) as usize), "C04 integer of a slice = sum code_i * 2^(i*BITS)", || format!("{} {} off={}", C::NAME, sl, off));
+                } else {
+                    rep.expect(matches!(got, Err(ParseBioError::SequenceTooLong(_, _))), "C04 longer slices are refused, not truncated", || format!("{} n={}", C::NAME, n));
+                }
+                // owned copies: raw image uses the documented layout from bit 0 of word 0
+                let owned = sl.to_owned();
+                let img = owned.into_raw().to_vec();
+                let codes: Vec<u8> = rows.iter().map(|&r| C::entry(r).code).collect();
+                rep.expect(img.len() * 64 >= n * w && image_rows::<C>(&img, n) == codes, "C04 raw image of a copied slice uses the documented layout from bit 0", || format!("{} {} off={} img={:x?}", C::NAME, sl, off, img));
+                match Seq::<C>::from_raw(n, &img) {
+                    Some(back) => rep.expect(back == owned, "C04 from_raw(len, into_raw()) gives the sequence back", || format!("{} {} off={}", C::NAME, sl, off)),
+                    None => rep.expect(false, "C04 from_raw accepts an image that holds the symbols", || format!("{} {}", C::NAME, sl)),
+                }
+            });
+        }
+    }
+    // rebuilding: all counts 0..words*64/BITS + 2
+    for words in 0..3usize {
+        let img: Vec<usize> = (0..words).map(|_| if w == 8 { 0x4141_4141_4141_4141 } else { 0 }).collect();
+        let cap = words * 64 / w;
+        for len in 0..cap + 3 {
+            rep.case(|| format!("{} from_raw({}, {} words)", C::NAME, len, words));
+            let got = Seq::<C>::from_raw(len, &img);
+            if len <= cap {
+                rep.expect(got.as_ref().map(|s| s.len()) == Some(len), "C04 from_raw returns len symbols when the image holds them", || format!("{} from_raw({}, {} words) -> {:?}", C::NAME, len, words, got.as_ref().map(|s| s.len())));
+            } else {
+                rep.expect(got.is_none(), "C04 from_raw returns nothing when the image does not hold that many symbols", || format!("{} from_raw({}, {} words) -> Some(len {})", C::NAME, len, words, got.as_ref().map(|s| s.len()).unwrap_or(0)));
+            }
+        }
+    }
+    // results of bitwise ops, reverse, edits: image layout
+    for off in [1usize, 3, 9] {
+        let n = 5;
+        let rows = rand_rows::<C>(rng, n);
+        with_offset::<C, _>(&rows, off, &mut Rng::new(rng.next()), |sl| {
+            let a = sl | sl;
+            let b = sl & sl;
+            let r = sl.to_rev();
+            let codes: Vec<u8> = rows.iter().map(|&r| C::entry(r).code).collect();
+            let mut rc = codes.clone();
+            rc.reverse();
+            rep.expect(image_rows::<C>(a.into_raw(), n) == codes && image_rows::<C>(b.into_raw(), n) == codes, "C04 raw image of a bitwise-op result uses the documented layout", || format!("{} {} off={}", C::NAME, sl, off));
+            rep.expect(image_rows::<C>(r.into_raw(), n) == rc, "C04 raw image of a reversed copy uses the documented layout", || format!("{} {} off={}", C::NAME, sl, off));
+        });
+    }
+}
+fn c04_kmer<const K: usize>(rep: &mut Report, rng: &mut Rng) {
+    for _ in 0..40 {
+        let rows = rand_rows::<Dna>(rng, K);
+        let v = layout_value::<Dna>(&rows) as usize;
+        rep.case(|| format!("Kmer<Dna,{}> {:#x}", K, v));
+        let k: Kmer<Dna, K> = Kmer::from(v);
+        let txt = String::from_utf8(text_of::<Dna>(&rows)).unwrap();
+        rep.expect(k.to_string() == txt, "C04 decoding an integer as a K-mer yields the symbols of the layout", || format!("K={} {:#x} -> {} expected {}", K, v, k, txt));
+        rep.expect(usize::from(&k) == v, "C04 integer of a k-mer = sum code_i * 2^(i*BITS)", || format!("K={} {}", K, txt));
+        let s = build::<Dna>(&rows);
+        rep.expect(usize::from(s) == v, "C04 From<Seq> for usize uses the layout", || format!("K={} {}", K, txt));
+        let k64: Kmer<Dna, K, u64> = Kmer::from(v as u64);
+        rep.expect(k64.to_string() == txt, "C04 u64-backed k-mer decodes the same layout", || format!("K={} {}", K, txt));
+    }
+}
+fn c04(_tier: &str, seed: u64) -> Report {
+    let mut rep = Report::new("C04", "slices of n in {1,2,max-1,max,max+1,max+3} symbols at offsets 0,1,5,11 per codec; from_raw for 0..2 words and every count 0..cap+2; Kmer<Dna,K> K in {1,5,16,31,32} x 40 random values");
+    rep.functions = vec!["From<usize|u64> for Kmer", "From<&Kmer> for usize", "From<Seq> for usize", "Display for Kmer", "witness search for from_raw / into_raw / to_owned obligations"];
+    let mut rng = Rng::new(seed);
+    for_codecs!(c04_codec, &mut rep, &mut rng);
+    c04_kmer::<1>(&mut rep, &mut rng);
+    c04_kmer::<5>(&mut rep, &mut rng);
+    c04_kmer::<16>(&mut rep, &mut rng);
+    c04_kmer::<31>(&mut rep, &mut rng);
+    c04_kmer::<32>(&mut rep, &mut rng);
+    // documented table 0:AAAAA 1:CAAAA ...
+    let doc = ["AAAAA", "CAAAA", "GAAAA", "TAAAA", "ACAAA", "CCAAA", "GCAAA"];
+    for (i, d) in doc.iter().enumerate() {
+        let k: Kmer<Dna, 5> = Kmer::from(i);
+        rep.expect(k.to_string() == *d, "C04 documented table 0:AAAAA 1:CAAAA ...", || format!("{} -> {}", i, k));
+    }
+    rep
+}
+
+// ------------------------------------------------------------------------------------------ C06
+fn c06_codec<C: Oracle>(rep: &mut Report, steps: usize, rng: &mut Rng) {
+    let n0 = rng.below(4);
+    let mut model: Vec<usize> = rand_rows::<C>(rng, n0);
+    let mut seq = build::<C>(&model);
+    let mut snapshots: Vec<(Seq<C>, Vec<usize>)> = vec![];
+    let mut hist = String::new();
+    for step in 0..steps {
+        let op = rng.below(10);
+        let n = model.len();
+        let na = rng.below(5);
+        let arg = rand_rows::<C>(rng, na);
+        let off = rng.below(13);
+        match op {
+            0 => {
+                let r = rng.below(C::len());
+                seq.push(C::entry(r).sym);
+                model.push(r);
+                hist.push_str("push;");
+            }
+            1 => {
+                seq.extend(arg.iter().map(|&r| C::entry(r).sym));
+                model.extend(&arg);
+                hist.push_str("extend;");
+            }
+            2 => {
+                with_offset::<C, _>(&arg, off, &mut Rng::new(rng.next()), |sl| seq.append(sl));
+                model.extend(&arg);
+                hist.push_str("append;");
+            }
+            3 => {
+                with_offset::<C, _>(&arg, off, &mut Rng::new(rng.next()), |sl| seq.prepend(sl));
+                let mut m = arg.clone();
+                m.extend(&model);
+                model = m;
+                hist.push_str("prepend;");
+            }
+            4 => {
+                let i = rng.below(n + 1);
+                with_offset::<C, _>(&arg, off, &mut Rng::new(rng.next()), |sl| seq.insert(i, sl));
+                let tail = model.split_off(i);
+                model.extend(&arg);
+                model.extend(tail);
+                hist.push_str(&format!("insert@{};", i));
+            }
+            5 => {
+                let a = rng.below(n + 1);
+                let b = a + rng.below(n - a + 1);
+                match rng.below(6) {
+                    0 => seq.remove(a..b),
+                    1 if b > a => seq.remove(a..=b - 1),
+                    2 => { seq.remove(..b); model.drain(..b); hist.push_str("remove..b;"); continue_check(rep, &seq, &model, &hist); continue; }
+                    3 => { seq.remove(a..); model.truncate(a); hist.push_str("remove a..;"); continue_check(rep, &seq, &model, &hist); continue; }
+                    4 if b > 0 => { seq.remove(..=b - 1); model.drain(..b); hist.push_str("remove..=b;"); continue_check(rep, &seq, &model, &hist); continue; }
+                    5 if n < 6 => { seq.remove(..); model.clear(); hist.push_str("remove..;"); continue_check(rep, &seq, &model, &hist); continue; }
+                    _ => seq.remove(a..b),
+                }
+                model.drain(a..b);
+                hist.push_str(&format!("remove {}..{};", a, b));
+            }
+            6 => {
+                let l = rng.below(n + 3);
+                seq.truncate(l);
+                model.truncate(l);
+                hist.push_str(&format!("truncate {};", l));
+            }
+            7 if step % 17 == 0 => {
+                seq.clear();
+                model.clear();
+                hist.push_str("clear;");
+            }
+            8 => {
+                snapshots.push((seq.clone(), model.clone()));
+                if n > 1 {
+                    let a = rng.below(n);
+                    snapshots.push((seq[a..].to_owned(), model[a..].to_vec()));
+                }
+                hist.push_str("snapshot;");
+            }
+            _ => {
+                let r = rng.below(C::len());
+                seq.push(C::entry(r).sym);
+                model.push(r);
+                hist.push_str("push;");
+            }
+        }
+        continue_check(rep, &seq, &model, &hist);
+        if hist.len() > 400 {
+            hist = hist[hist.len() - 200..].to_string();
+        }
+    }
+    for (s, m) in &snapshots {
+        rep.expect(rows_of::<C>(s) == *m, "C06 clones and copied slices keep their old content", || format!("{} ...{}", C::NAME, hist));
+    }
+    fn continue_check<C: Oracle>(rep: &mut Report, seq: &Seq<C>, model: &[usize], hist: &str) {
+        rep.case(|| format!("{} {}", C::NAME, &hist[hist.len().saturating_sub(80)..]));
+        rep.expect(seq.len() == model.len() && rows_of::<C>(seq) == model, "C06 edits behave like list edits", || format!("{} history ...{} got {} want rows {:?}", C::NAME, &hist[hist.len().saturating_sub(160)..], seq, model));
+    }
+}
+fn c06(tier: &str, seed: u64) -> Report {
+    let mut rep = Report::new("C06", "random edit histories (quick 300, thorough 3000 steps per codec) over push/extend/append/prepend/insert/remove(6 range forms)/truncate/clear with argument slices at random offsets, snapshots via clone/to_owned, compared with a Vec model after every step");
+    rep.functions = vec!["Seq::extend (for_each closure)", "Extend / FromIterator glue", "cross-check of the Verus-verified edit contracts on the real bitvec"];
+    let mut rng = Rng::new(seed);
+    let steps = if tier == "thorough" { 3000 } else { 300 };
+    for_codecs!(c06_codec, &mut rep, steps, &mut rng);
+    rep
+}
+
+// ------------------------------------------------------------------------------------------ C07 / C20 (in-place loops)
+fn comp_rows<C: Oracle>(rows: &[usize]) -> Vec<usize> {
+    rows.iter().map(|&r| {
+        let ch = if C::WIDTH == 1 { C::entry(r).ch } else { comp_letter(C::entry(r).ch) };
+        C::expect_ascii(ch).unwrap()
+    }).collect()
+}
+fn c07_rev<C: Oracle>(rep: &mut Report, maxlen: usize, rng: &mut Rng) {
+    let mut lens: Vec<usize> = (0..=maxlen).collect();
+    lens.extend([31, 32, 33, 63, 64, 65, 70]);
+    for n in lens {
+        for off in 0..(64 / C::BITS as usize).min(9) + 1 {
+            let rows = rand_rows::<C>(rng, n);
+            with_offset::<C, _>(&rows, off, &mut Rng::new(rng.next()), |sl| {
+                rep.case(|| format!("rev {} n={} off={}", C::NAME, n, off));
+                let mut want = rows.clone();
+                want.reverse();
+                let before = sl.to_string();
+                let r = sl.to_rev();
+                rep.expect(rows_of::<C>(&r) == want, "C07 to_rev yields the symbols in opposite order", || format!("{} {} off={} -> {}", C::NAME, sl, off, r));
+                rep.expect(sl.to_string() == before, "C07 copying forms leave the receiver untouched", || format!("{} {}", C::NAME, before));
+                let owned = sl.to_owned();
+                rep.expect(owned.to_rev() == r, "C07 same answer for an owned sequence and a slice at any offset", || format!("{} {} off={}", C::NAME, sl, off));
+                let mut inplace = sl.to_owned();
+                inplace.rev();
+                rep.expect(inplace == r, "C07 in-place rev on a copy equals to_rev", || format!("{} {}", C::NAME, sl));
+                inplace.rev();
+                rep.expect(rows_of::<C>(&inplace) == rows, "C07 rev twice restores the original", || format!("{} {}", C::NAME, sl));
+            });
+        }
+    }
+}
+macro_rules! c07_comp {
+    ($C:ty, $rep:expr, $maxlen:expr, $rng:expr) => {{
+        type C = $C;
+        let rep: &mut Report = $rep;
+        let maxlen: usize = $maxlen;
+        let rng: &mut Rng = $rng;
+
+    let mut lens: Vec<usize> = (0..=maxlen).collect();
+    lens.extend([31, 32, 33, 63, 64, 65, 70]);
+    for n in lens {
+        for off in [0usize, 1, 2, 3, 5, 12, 13] {
+            let rows = rand_rows::<C>(rng, n);
+            with_offset::<C, _>(&rows, off, &mut Rng::new(rng.next()), |sl| {
+                rep.case(|| format!("comp {} n={} off={}", C::NAME, n, off));
+                let wantc = comp_rows::<C>(&rows);
+                let mut wantrc = wantc.clone();
+                wantrc.reverse();
+                let c = sl.to_comp();
+                let rc = sl.to_revcomp();
+                rep.expect(rows_of::<C>(&c) == wantc, "C07 to_comp complements each symbol in place", || format!("{} {} off={} -> {}", C::NAME, sl, off, c));
+                rep.expect(rows_of::<C>(&rc) == wantrc, "C07 to_revcomp is reverse and complement at once", || format!("{} {} off={} -> {}", C::NAME, sl, off, rc));
+                rep.expect(c.to_rev() == rc && sl.to_rev().to_comp() == rc, "C07 revcomp equals either order of composition", || format!("{} {}", C::NAME, sl));
+                rep.expect(rows_of::<C>(&rc.to_revcomp()) == rows && rows_of::<C>(&c.to_comp()) == rows, "C07 comp / revcomp twice restore the original", || format!("{} {}", C::NAME, sl));
+                let mut o = sl.to_owned();
+                rep.expect(o.to_comp() == c && o.to_revcomp() == rc, "C07 same answer for owned and borrowed", || format!("{} {}", C::NAME, sl));
+                o.comp();
+                rep.expect(o == c, "C07 in-place comp on a copy equals to_comp", || format!("{} {}", C::NAME, sl));
+                o.rev();
+                rep.expect(o == rc, "C07 comp then rev in place equals to_revcomp", || format!("{} {}", C::NAME, sl));
+                let mut o2 = sl.to_owned();
+                o2.revcomp();
+                rep.expect(o2 == rc, "C07 in-place revcomp equals to_revcomp", || format!("{} {}", C::NAME, sl));
+            });
+        }
+    }
+    }};
+}
+fn c07(tier: &str, seed: u64) -> Report {
+    let mut rep = Report::new("C07", "lengths 0..=4 (thorough 0..=8) and 31,32,33,63,64,65,70 at start offsets 0..min(64/BITS,9) for reverse (7 codecs) and 0,1,2,3,5,12,13 for complement (5 complementable codecs), random content per case");
+    rep.functions = vec!["ReverseMut::rev for Seq (loop over rchunks_exact_mut)", "ComplementMut::comp for Seq (loop over chunks_exact_mut + remove_alias)", "to_rev/to_comp/to_revcomp/revcomp on the real crate"];
+    let mut rng = Rng::new(seed);
+    let m = if tier == "thorough" { 8 } else { 4 };
+    for_codecs!(c07_rev, &mut rep, m, &mut rng);
+    c07_comp!(Dna, &mut rep, m, &mut rng);
+    c07_comp!(Iupac, &mut rep, m, &mut rng);
+    c07_comp!(masked::dna::Dna, &mut rep, m, &mut rng);
+    c07_comp!(masked::iupac::Iupac, &mut rep, m, &mut rng);
+    c07_comp!(degenerate::dna::Dna, &mut rep, m, &mut rng);
+    rep
+}
+
+fn mask_rows<C: Oracle>(rows: &[usize], mask: bool) -> Vec<usize> {
+    rows.iter().map(|&r| {
+        let ch = C::entry(r).ch;
+        let out = if C::WIDTH == 5 {
+            // masked IUPAC: lower / upper case forms, '-' <-> '.'
+            if mask { if ch == b'-' || ch == b'.' { b'.' } else { ch.to_ascii_lowercase() } } else if ch == b'-' || ch == b'.' { b'-' } else { ch.to_ascii_uppercase() }
+        } else {
+            // masked DNA: toggle case of letters; gap and pad fixed; '?' <-> '!' (bit inversion)
+            match ch {
+                b'?' => b'!',
+                b'!' => b'?',
+                c if c.is_ascii_lowercase() => c.to_ascii_uppercase(),
+                c if c.is_ascii_uppercase() => c.to_ascii_lowercase(),
+                c => c,
+            }
+        };
+        C::expect_ascii(out).unwrap()
+    }).collect()
+}
+macro_rules! c20_codec {
+    ($C:ty, $rep:expr, $rng:expr) => {{
+        type C = $C;
+        let rep: &mut Report = $rep;
+        let rng: &mut Rng = $rng;
+
+    for n in [0usize, 1, 2, 3, 12, 13, 14, 25, 26, 38, 39, 51, 52, 64, 70] {
+        for _ in 0..3 {
+            let rows = rand_rows::<C>(rng, n);
+            let s = build::<C>(&rows);
+            rep.case(|| format!("mask {} {}", C::NAME, s));
+            let m = s.to_mask();
+            let u = s.to_unmask();
+            rep.expect(rows_of::<C>(&m) == mask_rows::<C>(&rows, true) && m.len() == n, "C20 mask applies position-wise and preserves length", || format!("{} {} -> {}", C::NAME, s, m));
+            rep.expect(rows_of::<C>(&u) == mask_rows::<C>(&rows, false) && u.len() == n, "C20 unmask applies position-wise and preserves length", || format!("{} {} -> {}", C::NAME, s, u));
+            rep.expect(rows_of::<C>(&s) == rows, "C20 to_mask/to_unmask leave the receiver untouched", || format!("{} {}", C::NAME, s));
+            let mut ip = s.clone();
+            ip.mask();
+            rep.expect(ip == m, "C20 in-place mask equals to_mask", || format!("{} {}", C::NAME, s));
+            let mut ip = s.clone();
+            ip.unmask();
+            rep.expect(ip == u, "C20 in-place unmask equals to_unmask", || format!("{} {}", C::NAME, s));
+            rep.expect(m.to_comp() == s.to_comp().to_mask() && m.to_rev() == s.to_rev().to_mask() && m.to_revcomp() == s.to_revcomp().to_mask(), "C20 masking commutes with complement and reverse", || format!("{} {}", C::NAME, s));
+            if C::WIDTH == 5 {
+                rep.expect(m.to_mask() == m && u.to_unmask() == u && m.to_unmask() == u, "C20 mask/unmask idempotent; unmask after mask equals unmask", || format!("{} {}", C::NAME, s));
+            } else {
+                rep.expect(m.to_mask() == s && u.to_unmask() == s, "C20 masked DNA: mask/unmask are involutions", || format!("{} {}", C::NAME, s));
+            }
+        }
+    }
+    }};
+}
+fn c20(_tier: &str, seed: u64) -> Report {
+    let mut rep = Report::new("C20", "lengths 0,1,2,3,12,13,14,25,26,38,39,51,52,64,70 (5-bit symbols straddling 64-bit words at positions 12,25,38,51) x 3 random contents for masked::Iupac; same lengths for masked::Dna");
+    rep.functions = vec!["MaskableMut::mask/unmask for Seq (loops over chunks_exact_mut + remove_alias)", "Maskable::to_mask/to_unmask"];
+    let mut rng = Rng::new(seed);
+    c20_codec!(masked::iupac::Iupac, &mut rep, &mut rng);
+    // masked::Dna does not implement Maskable for sequences unless the trait impls exist; guarded at compile time below
+    c20_dna(&mut rep, &mut rng);
+    rep
+}
+fn c20_dna(rep: &mut Report, rng: &mut Rng) {
+    type D = masked::dna::Dna;
+    for n in [0usize, 1, 2, 15, 16, 17, 33] {
+        let rows = rand_rows::<D>(rng, n);
+        let s = build::<D>(&rows);
+        rep.case(|| format!("mask masked_dna {}", s));
+        let mut m = s.clone();
+        m.mask();
+        rep.expect(rows_of::<D>(&m) == mask_rows::<D>(&rows, true), "C20 masked DNA: mask toggles case position-wise, gap/pad fixed", || format!("{} -> {}", s, m));
+        let mut mm = m.clone();
+        mm.unmask();
+        rep.expect(mm == s, "C20 masked DNA: unmask after mask restores", || format!("{}", s));
+    }
+}
+
+// ------------------------------------------------------------------------------------------ C08
+fn c08_k<C: Oracle, const K: usize>(rep: &mut Report, rng: &mut Rng) {
+    for n in [0usize, K.saturating_sub(1), K, K + 1, K + 3, 2 * K + 5, 70] {
+        let rows = rand_rows::<C>(rng, n);
+        let off = rng.below(11);
+        with_offset::<C, _>(&rows, off, &mut Rng::new(rng.next()), |sl| {
+            rep.case(|| format!("{} K={} n={} off={}", C::NAME, K, n, off));
+            let ks: Vec<Kmer<C, K>> = sl.kmers::<K>().collect();
+            let want = if n >= K { n - K + 1 } else { 0 };
+            rep.expect(ks.len() == want, "C08 kmers yields max(0, n-K+1) k-mers", || format!("{} K={} n={} got {}", C::NAME, K, n, ks.len()));
+            let ws: Vec<&SeqSlice<C>> = sl.windows(K).collect();
+            rep.expect(ws.len() == want, "C08 windows(K) yields the same number of windows", || format!("{} K={} n={}", C::NAME, K, n));
+            for (i, k) in ks.iter().enumerate() {
+                let txt = String::from_utf8(text_of::<C>(&rows[i..i + K])).unwrap();
+                let canon = build::<C>(&rows[i..i + K]).to_string();
+                rep.expect(k.to_string() == canon && *k == ws[i] && k.len() == K, "C08 the i-th k-mer holds symbols i..i+K (display, equality with the window)", || format!("{} K={} i={} {} vs {}", C::NAME, K, i, k, canon));
+                rep.expect(rows_of::<C>(&**k) == &rows[i..i + K], "C08 deref of a k-mer gives the same symbols", || format!("{} K={} {}", C::NAME, K, k));
+                let back: Seq<C> = Seq::from(*k);
+                rep.expect(rows_of::<C>(&back) == &rows[i..i + K], "C08 converting a k-mer back to a sequence gives the same symbols", || format!("{} K={} {}", C::NAME, K, k));
+                match Kmer::<C, K>::from_str(&txt) {
+                    Ok(p) => rep.expect(p == *k, "C08 a k-mer parsed from text equals the k-mer of those symbols", || format!("{} {}", C::NAME, txt)),
+                    Err(e) => rep.expect(false, "C08 valid text of length K parses", || format!("{} {} {:?}", C::NAME, txt, e)),
+                }
+            }
+            // construction: exact length only
+            let r: Result<Kmer<C, K>, _> = Kmer::try_from(sl);
+            if n == K {
+                rep.expect(r.is_ok(), "C08 try_from a slice of length K succeeds", || format!("{} K={}", C::NAME, K));
+            } else {
+                rep.expect(r == Err(ParseBioError::MismatchedLength(K, n)), "C08 wrong length is an error, never a truncated or padded k-mer", || format!("{} K={} n={} got {:?}", C::NAME, K, n, r.map(|k| k.to_string())));
+                let t = String::from_utf8(text_of::<C>(&rows)).unwrap();
+                rep.expect(Kmer::<C, K>::from_str(&t).is_err(), "C08 text of the wrong length is an error", || format!("{} K={} {:?}", C::NAME, K, t));
+            }
+            let r2: Result<Kmer<C, K>, _> = Kmer::try_from(sl.to_owned());
+            rep.expect(r2.is_ok() == (n == K), "C08 try_from an owned sequence succeeds exactly for length K", || format!("{} K={} n={}", C::NAME, K, n));
+        });
+    }
+    // invalid text of the right length
+    let mut t = String::from_utf8(text_of::<C>(&rand_rows::<C>(rng, K))).unwrap();
+    t.replace_range(K - 1..K, "\u{7f}");
+    rep.expect(Kmer::<C, K>::from_str(&t).is_err(), "C08 invalid text is an error", || format!("{} {:?}", C::NAME, t));
+}
+fn c08(_tier: &str, seed: u64) -> Report {
+    let mut rep = Report::new("C08", "sequences of length 0, K-1, K, K+1, K+3, 2K+5, 70 at random offsets; K in {1,2,5,16,31,32} Dna, {1,8,16} Iupac, {1,3,10} Amino, {1,8} text, {1,12} masked 5-bit; u64/u128 storage for Dna K=7,40");
+    rep.functions = vec!["FromStr for Kmer", "Display for Kmer (chunks().for_each closure)", "From<Kmer> for Seq (extend)", "kmer! macro", "Iterator adapters over KmerIter (collect)"];
+    let mut rng = Rng::new(seed);
+    c08_k::<Dna, 1>(&mut rep, &mut rng);
+    c08_k::<Dna, 2>(&mut rep, &mut rng);
+    c08_k::<Dna, 5>(&mut rep, &mut rng);
+    c08_k::<Dna, 16>(&mut rep, &mut rng);
+    c08_k::<Dna, 31>(&mut rep, &mut rng);
+    c08_k::<Dna, 32>(&mut rep, &mut rng);
+    c08_k::<Iupac, 1>(&mut rep, &mut rng);
+    c08_k::<Iupac, 8>(&mut rep, &mut rng);
+    c08_k::<Iupac, 16>(&mut rep, &mut rng);
+    c08_k::<Amino, 1>(&mut rep, &mut rng);
+    c08_k::<Amino, 3>(&mut rep, &mut rng);
+    c08_k::<Amino, 10>(&mut rep, &mut rng);
+    c08_k::<text::Dna, 1>(&mut rep, &mut rng);
+    c08_k::<text::Dna, 8>(&mut rep, &mut rng);
+    c08_k::<masked::iupac::Iupac, 1>(&mut rep, &mut rng);
+    c08_k::<masked::iupac::Iupac, 12>(&mut rep, &mut rng);
+    // other storage types
+    let rows = rand_rows::<Dna>(&mut rng, 40);
+    let s = build::<Dna>(&rows);
+    let k128: Kmer<Dna, 40, u128> = Kmer::try_from(&s[..]).unwrap();
+    rep.expect(k128.to_string() == s.to_string() && k128 == &s[..], "C08 u128-backed k-mer holds the slice's symbols", || format!("{}", s));
+    let k64: Kmer<Dna, 7, u64> = Kmer::try_from(&s[3..10]).unwrap();
+    rep.expect(k64.to_string() == s[3..10].to_string() && k64 == &s[3..10], "C08 u64-backed k-mer holds the slice's symbols", || format!("{}", &s[3..10]));
+    let lit = kmer!("ACGTTGCA");
+    rep.expect(lit.to_string() == "ACGTTGCA" && lit == dna!("ACGTTGCA"), "C08 kmer! literal holds its symbols", || "ACGTTGCA".to_string());
+    rep
+}
+
+// ------------------------------------------------------------------------------------------ C11
+fn c11_codec<C: Oracle + core::fmt::Debug>(rep: &mut Report, rng: &mut Rng) {
+    for n in [0usize, 1, 2, 3, 7, 33, 66] {
+        let rows = rand_rows::<C>(rng, n);
+        let off = rng.below(15);
+        with_offset::<C, _>(&rows, off, &mut Rng::new(rng.next()), |sl| {
+            let f: Vec<C> = sl.iter().collect();
+            let f2: Vec<C> = sl.into_iter().collect();
+            let r: Vec<C> = sl.rev_iter().collect();
+            let want: Vec<C> = rows.iter().map(|&x| C::entry(x).sym).collect();
+            let mut wr = want.clone();
+            wr.reverse();
+            rep.case(|| format!("{} n={} off={}", C::NAME, n, off));
+            rep.expect(f == want && f2 == want, "C11 forward iteration yields the symbols in order, each once", || format!("{} {}", C::NAME, sl));
+            rep.expect(r == wr, "C11 reverse iteration yields the symbols in opposite order", || format!("{} {}", C::NAME, sl));
+            let owned = sl.to_owned();
+            let f3: Vec<C> = (&owned).into_iter().collect();
+            rep.expect(f3 == want, "C11 &Seq iterates like its slice", || format!("{} {}", C::NAME, sl));
+            for w in 1..n + 3 {
+                let ws: Vec<Vec<usize>> = sl.windows(w).map(|x| rows_of::<C>(x)).collect();
+                let cs: Vec<Vec<usize>> = sl.chunks(w).map(|x| rows_of::<C>(x)).collect();
+                let wantw: Vec<Vec<usize>> = if w <= n { (0..=n - w).map(|i| rows[i..i + w].to_vec()).collect() } else { vec![] };
+                let wantc: Vec<Vec<usize>> = (0..n / w).map(|i| rows[i * w..(i + 1) * w].to_vec()).collect();
+                rep.expect(ws == wantw, "C11 windows(w) yields the n-w+1 consecutive width-w slices", || format!("{} n={} w={}", C::NAME, n, w));
+                rep.expect(cs == wantc, "C11 chunks(w) yields floor(n/w) disjoint slices, tail dropped", || format!("{} n={} w={}", C::NAME, n, w));
+                let v: Vec<Seq<C>> = sl.chunks(w).collect();
+                rep.expect(v.iter().map(|s| rows_of::<C>(s)).collect::<Vec<_>>() == wantc, "C11 collecting slices into Vec<Seq> copies each", || format!("{} n={} w={}", C::NAME, n, w));
+            }
+            let second = build::<C>(&rand_rows::<C>(&mut Rng::new(n as u64), 3));
+            let ch: Vec<C> = sl.chain(&second).collect();
+            let mut wc = want.clone();
+            wc.extend(second.iter());
+            rep.expect(ch == wc, "C11 chain yields the first's symbols then the second's", || format!("{} {} + {}", C::NAME, sl, second));
+        });
+    }
+}
+fn c11(_tier: &str, seed: u64) -> Report {
+    let mut rep = Report::new("C11", "lengths 0,1,2,3,7,33,66 at random offsets, all widths 1..n+2, 7 codecs");
+    rep.functions = vec!["SeqSlice::iter (delegation to IntoIterator)", "IntoIterator for &Seq", "SeqSlice::chain (std Chain)", "FromIterator<&SeqSlice> for Vec<Seq>", "std adapters (collect/map) over the verified next()"];
+    let mut rng = Rng::new(seed);
+    for_codecs!(c11_codec, &mut rep, &mut rng);
+    rep
+}
+
+// ------------------------------------------------------------------------------------------ C12
+fn c12(_tier: &str, seed: u64) -> Report {
+    use crate::laws::{iupac_letter, iupac_set};
+    let mut rep = Report::new("C12", "all 256 symbol pairs at every position of length-3 sequences (position 0,1,2) at offsets 0,1,7,15; random pairs of length 17,40; all length mismatches 0..4 for contains; SeqArray operands");
+    rep.functions = vec!["SeqArray::contains", "operator sugar `&a | &b` on the real crate", "cross-check of the Verus contracts of BitAnd/BitOr/contains"];
+    let mut rng = Rng::new(seed);
+    let setof = |r: usize| iupac_set(<Iupac as Oracle>::entry(r).ch);
+    let row_of_set = |s: u8| <Iupac as Oracle>::expect_ascii(iupac_letter(s)).unwrap();
+    for a in 0..16usize {
+        for b in 0..16usize {
+            for pos in 0..3 {
+                let mut x = rand_rows::<Iupac>(&mut rng, 3);
+                let mut y = rand_rows::<Iupac>(&mut rng, 3);
+                x[pos] = a;
+                y[pos] = b;
+                let (ox, oy) = ([0usize, 1, 7, 15][rng.below(4)], [0usize, 1, 7, 15][rng.below(4)]);
+                let px = { let mut p = rand_rows::<Iupac>(&mut rng, ox); p.extend(&x); build::<Iupac>(&p) };
+                let py = { let mut p = rand_rows::<Iupac>(&mut rng, oy); p.extend(&y); build::<Iupac>(&p) };
+                let (sx, sy) = (&px[ox..], &py[oy..]);
+                rep.case(|| format!("{} | & {}", sx, sy));
+                let or = sx | sy;
+                let and = sx & sy;
+                let wor: Vec<usize> = (0..3).map(|i| row_of_set(setof(x[i]) | setof(y[i]))).collect();
+                let wand: Vec<usize> = (0..3).map(|i| row_of_set(setof(x[i]) & setof(y[i]))).collect();
+                rep.expect(rows_of::<Iupac>(&or) == wor, "C12 | yields the union's ambiguity code at each position", || format!("{} | {} = {}", sx, sy, or));
+                rep.expect(rows_of::<Iupac>(&and) == wand, "C12 & yields the intersection's code (gap for empty)", || format!("{} & {} = {}", sx, sy, and));
+                rep.expect(sx.to_owned().bit_or(sy.to_owned()) == or && sx.to_owned().bit_and(sy.to_owned()) == and, "C12 owned operands give the same result", || format!("{} {}", sx, sy));
+                let sub = (0..3).all(|i| setof(y[i]) & setof(x[i]) == setof(y[i]));
+                rep.expect(sx.contains(sy) == sub && sx.to_owned().contains(sy) == sub, "C12 contains <=> every position of the argument is a subset", || format!("{} contains {}", sx, sy));
+            }
+        }
+    }
+    for la in 0..5usize {
+        for lb in 0..5usize {
+            let x = build::<Iupac>(&vec![14; la]); // N
+            let y = build::<Iupac>(&vec![0; lb]); // A
+            rep.case(|| format!("contains lengths {} {}", la, lb));
+            rep.expect(x.contains(&y) == (la == lb) && (&x[..]).contains(&y) == (la == lb), "C12 contains is false for every length mismatch", || format!("{} contains {}", x, y));
+        }
+    }
+    rep.expect(iupac!("ANY").contains(iupac!("ACT")) && !iupac!("ANY").contains(iupac!("ACG")) && !iupac!("ANY").contains(iupac!("AC")), "C12 SeqArray::contains", || "ANY".into());
+    rep
+}
+
+// ------------------------------------------------------------------------------------------ C13
+fn c13(_tier: &str, seed: u64) -> Report {
+    use bio_seq::translation::{TranslationTable, STANDARD};
+    let mut rep = Report::new("C13", "all 64 codons x all 32 base offsets inside a word (incl. straddling two words); random DNA of length 40,99 translated by windows(3)/chunks(3)");
+    rep.functions = vec!["STANDARD.to_amino through windows(3)/chunks(3) adapters on the real crate"];
+    let mut rng = Rng::new(seed);
+    for c in 0..64u8 {
+        for off in 0..32usize {
+            let rows = vec![(c & 3) as usize, ((c >> 2) & 3) as usize, ((c >> 4) & 3) as usize];
+            with_offset::<Dna, _>(&rows, off + 16, &mut Rng::new(rng.next()), |sl| {
+                rep.case(|| format!("codon {} off={}", sl, off + 16));
+                rep.expect(STANDARD.to_amino(sl).to_char() == ncbi_amino(c) as char, "C13 to_amino is NCBI table 1 for every codon at every offset", || format!("{} off={} -> {}", sl, off + 16, STANDARD.to_amino(sl).to_char()));
+            });
+        }
+    }
+    for n in [40usize, 99] {
+        let rows = rand_rows::<Dna>(&mut rng, n);
+        let s = build::<Dna>(&rows);
+        let code = |i: usize| (rows[i] | rows[i + 1] << 2 | rows[i + 2] << 4) as u8;
+        let w: String = s.windows(3).map(|c| STANDARD.to_amino(c).to_char()).collect();
+        let ww: String = (0..n - 2).map(|i| ncbi_amino(code(i)) as char).collect();
+        let c: String = s.chunks(3).map(|c| STANDARD.to_amino(c).to_char()).collect();
+        let cw: String = (0..n / 3).map(|i| ncbi_amino(code(3 * i)) as char).collect();
+        rep.case(|| format!("translate {}", s));
+        rep.expect(w == ww && c == cw, "C13 translating by windows / chunks gives the translation of each triplet", || format!("{}", s));
+    }
+    rep.expect(caught(|| STANDARD.to_amino(dna!("AC"))).is_none() && caught(|| STANDARD.to_amino(dna!("ACGT"))).is_none(), "C13 codons of another length are refused", || "AC / ACGT".into());
+    rep
+}
+
+// ------------------------------------------------------------------------------------------ C19
+fn c19_trim<C: Oracle>(rep: &mut Report, thorough: bool) {
+    let valid: Vec<u8> = (0..=255u8).filter(|&b| C::expect_ascii(b).is_some()).collect();
+    let invalid: Vec<u8> = [b'x', 0x80, b'\n', b'J'].iter().copied().filter(|&b| C::expect_ascii(b).is_none()).take(2).collect();
+    let alpha = vec![valid[0], valid[valid.len() - 1], invalid[0], invalid[1]];
+    for bytes in all_strings(&alpha, if thorough { 6 } else { 5 }) {
+        rep.case(|| format!("trim {} {}", C::NAME, show(&bytes)));
+        let first = bytes.iter().position(|&b| C::expect_ascii(b).is_some());
+        let last = bytes.iter().rposition(|&b| C::expect_ascii(b).is_some());
+        let span: &[u8] = match (first, last) {
+            (Some(a), Some(b)) => &bytes[a..=b],
+            _ => &[],
+        };
+        let want = Seq::<C>::try_from(span);
+        let got = Seq::<C>::trim_u8(&bytes);
+        rep.expect(got == want, "C19 trim_u8 equals strict parsing of the span between the first and last acceptable byte", || format!("{} {} got {:?} want {:?}", C::NAME, show(&bytes), got.as_ref().map(|s| s.to_string()), want.as_ref().map(|s| s.to_string())));
+        if span.is_empty() {
+            rep.expect(matches!(&got, Ok(s) if s.is_empty()), "C19 an input with no acceptable byte gives the empty sequence", || show(&bytes));
+        }
+    }
+}
+fn c19(tier: &str, seed: u64) -> Report {
+    let mut rep = Report::new("C19", "all byte strings of length <= 5 (thorough 6) over {2 acceptable, 2 unacceptable} per codec for trim_u8; DNA sequences of length 0..6 exhaustively (4^n) + 33,70 random, slices at offsets, static literals, for conversion");
+    rep.functions = vec!["Seq::trim_u8 (position/rposition closures)", "From<&SeqSlice<A>> / From<&SeqArray> / From<SeqArray> for Seq<B> (iter().map(Into::into).collect())"];
+    let mut rng = Rng::new(seed);
+    let th = tier == "thorough";
+    for_codecs!(c19_trim, &mut rep, th);
+    let mut all: Vec<Vec<usize>> = vec![];
+    for n in 0..=(if th { 6 } else { 5 }) {
+        for v in 0..4usize.pow(n as u32) {
+            all.push((0..n).map(|i| (v >> (2 * i)) & 3).collect());
+        }
+    }
+    all.push(rand_rows::<Dna>(&mut rng, 33));
+    all.push(rand_rows::<Dna>(&mut rng, 70));
+    for rows in &all {
+        let off = rng.below(9);
+        with_offset::<Dna, _>(rows, off, &mut Rng::new(rng.next()), |sl| {
+            rep.case(|| format!("convert {}", sl));
+            let i: Seq<Iupac> = Seq::from(sl);
+            let t: Seq<text::Dna> = Seq::from(sl);
+            rep.expect(i.len() == sl.len() && i.to_string() == sl.to_string(), "C19 DNA -> IUPAC keeps length and letters", || format!("{} -> {}", sl, i));
+            rep.expect(t.len() == sl.len() && t.to_string() == sl.to_string(), "C19 DNA -> text keeps length and letters", || format!("{} -> {}", sl, t));
+        });
+    }
+    let lit = dna!("ACGTTGCAACGT");
+    let i: Seq<Iupac> = lit.into();
+    let i2: Seq<Iupac> = Seq::from(lit);
+    rep.expect(i.to_string() == "ACGTTGCAACGT" && i2 == i, "C19 static literal converts with the same letters", || "ACGTTGCAACGT".into());
+    rep
+}
+
+pub fn run(prop: &str, tier: &str, seed: u64) -> Report {
     match prop {
+        "C01" => c01(tier, seed),
+        "C02" => c02(tier, seed),
+        "C03" => c03(tier, seed),
+        "C04" => c04(tier, seed),
+        "C06" => c06(tier, seed),
+        "C07" => c07(tier, seed),
+        "C08" => c08(tier, seed),
+        "C11" => c11(tier, seed),
+        "C12" => c12(tier, seed),
+        "C13" => c13(tier, seed),
+        "C19" => c19(tier, seed),
+        "C20" => c20(tier, seed),
         _ => Report::new(prop, "no stand-in defined"),
     }
 }
